@@ -528,7 +528,40 @@ func c11JobPeriodic(periods []string, name string, cost int) Job {
 
 // ---------------------------------------------------------------- level 2: on the wire
 
-const c11Target = "#c"
+// c11Target is the target of every wire-level call; job wire/targets-and-bytes swaps it (one job at a time per
+// worker process).
+var c11Target = "#c"
+
+// c11JobWireTargets: the target is the caller's, byte for byte, on every line (format verbs, commas, other
+// channel prefixes), and the text may hold any byte but CR and LF (NUL, 0x01, 0xff).
+func c11JobWireTargets(methods []*c11WireMethod) Job {
+	name := "wire/targets-and-bytes"
+	return Job{Name: name, Cost: 5, Run: func(jc *JobCtx) *JobResult {
+		return c11RunGuarded(jc, name, func(e *Enum, g *c11Guard) {
+			old := c11Target
+			defer func() { c11Target = old }()
+			var texts []c11Text
+			for _, p := range []string{"word ", "x", "a\x00b ", "\x00", "é", "q\xff r", "%s %d ", "100% "} {
+				full := strings.Repeat(p, 400/len(p)+1)
+				for _, n := range []int{30, 61, 130, 300} {
+					texts = append(texts, c11Text{S: full[:n], Period: p})
+				}
+			}
+		loop:
+			for _, tg := range []string{"#100%", "#%s", "nick%d%v", "#c,#d", "&x", "+m", "a%", "%"} {
+				c11Target = tg
+				for _, m := range methods {
+					for _, sl := range []int{20, 60} {
+						if c11WireRun(jc, e, g, m, sl, texts) {
+							break loop
+						}
+					}
+				}
+			}
+			e.Sample(map[string]interface{}{"targets": 8, "texts": len(texts)})
+		})
+	}}
+}
 
 type c11WireMethod struct {
 	Name, Verb string
@@ -807,6 +840,14 @@ func c11Jobs(tier string) []Job {
 		jobs = append(jobs, c11JobPeriodic(ch, fmt.Sprintf("split/periodic/periods<=%d/%03d-%s", pick(3, 4), i, Q(ch[0])), 150))
 	}
 
+	// (2c) wire, other targets and bytes
+	{
+		var ms []*c11WireMethod
+		for mi := range c11WireMethods {
+			ms = append(ms, &c11WireMethods[mi])
+		}
+		jobs = append(jobs, c11JobWireTargets(ms))
+	}
 	// (2a) wire, short texts: method x 2-letter prefix
 	maxW := pick(9, 12)
 	for mi := range c11WireMethods {
